@@ -24,6 +24,7 @@ func WriteFileAtomic(path string, data []byte, permissions os.FileMode) error {
 	}
 
 	// Write data.
+	verifAtomicStep("write", path, temporary)
 	if _, err = temporary.Write(data); err != nil {
 		temporary.Close()
 		os.Remove(temporary.Name())
@@ -31,23 +32,27 @@ func WriteFileAtomic(path string, data []byte, permissions os.FileMode) error {
 	}
 
 	// Close out the file.
+	verifAtomicStep("close", path, temporary)
 	if err = temporary.Close(); err != nil {
 		os.Remove(temporary.Name())
 		return fmt.Errorf("unable to close temporary file: %w", err)
 	}
 
 	// Set the file's permissions.
+	verifAtomicStep("chmod", path, temporary)
 	if err = os.Chmod(temporary.Name(), permissions); err != nil {
 		os.Remove(temporary.Name())
 		return fmt.Errorf("unable to change file permissions: %w", err)
 	}
 
 	// Rename the file.
+	verifAtomicStep("rename", path, temporary)
 	if err = Rename(nil, temporary.Name(), nil, path, true); err != nil {
 		os.Remove(temporary.Name())
 		return fmt.Errorf("unable to rename file: %w", err)
 	}
 
 	// Success.
+	verifAtomicStep("done", path, temporary)
 	return nil
 }
